@@ -24,12 +24,13 @@ Definition idx_ok (kr : krec) : Prop :=
 Definition batch_ok (op : wop) (c : ctx) (b : batch) : Prop :=
   b_key b = op_key op /\ b_rev b = c_rev c /\ b_flag b = is_tomb (b_val b) /\
   match b_cond b with CIs old => fst old <= c_rev c | CAbsent => True end /\
-  match op_verb op with VDelete => b_val b = tombstone | _ => b_val b = c_val c end.
+  match op_verb op with VDelete => b_val b = tombstone | _ => b_val b = c_val c /\ is_tomb (b_val b) = false end.
 
 Definition pc_ok (op : wop) (p : pc) : Prop :=
   match p with
-  | PCommit st c b => batch_ok op c b /\ (st = CFirstCreate -> op_verb op <> VDelete /\ is_tomb (c_val c) = false)
-  | PCreateGet c => op_verb op <> VDelete /\ is_tomb (c_val c) = false
+  | PCommit st c b => batch_ok op c b /\ (st = CFirstCreate -> op_verb op <> VDelete /\ is_tomb (c_val c) = false) /\ op_is_write op = true
+  | PCreateGet c => op_verb op <> VDelete /\ is_tomb (c_val c) = false /\ op_is_write op = true
+  | PDelDeal _ (Some ge) => is_unc ge = false
   | _ => True
   end.
 
@@ -60,12 +61,12 @@ Qed.
 
 (* ---------- the request's own program counter ---------- *)
 Lemma create_decide_ok op c old :
-  op_verb op <> VDelete -> is_tomb (c_val c) = false -> pc_ok op (create_decide (op_key op) c (c_val c) old).
+  op_verb op <> VDelete -> is_tomb (c_val c) = false -> op_is_write op = true -> pc_ok op (create_decide (op_key op) c (c_val c) old).
 Proof.
-  intros Hv Ht. unfold create_decide. destruct (snd old && (fst old <? c_rev c)) eqn:E; [|exact I].
+  intros Hv Ht Hw. unfold create_decide. destruct (snd old && (fst old <? c_rev c)) eqn:E; [|exact I].
   apply andb_true_iff in E as [_ E]. apply N.ltb_lt in E.
-  split; [|discriminate]. unfold batch_ok. cbn [mk_batch b_key b_rev b_flag b_val b_cond].
-  repeat split; auto; [lia|]. destruct (op_verb op); auto. contradiction.
+  split; [|split; [discriminate|exact Hw]]. unfold batch_ok. cbn [mk_batch b_key b_rev b_flag b_val b_cond].
+  repeat split; auto; try lia; destruct (op_verb op); auto; contradiction.
 Qed.
 
 Lemma thread_step_pc_ok s op p e s' p' u :
@@ -74,14 +75,14 @@ Proof.
   intros H W P. destruct p; simpl in H.
   - destruct op as [k v|k v prev|k ex|r].
     + injection H as _ <- _. unfold op_wf in W. simpl in W.
-      split; [|intros _; split; [discriminate|exact W]].
-      unfold batch_ok; simpl. rewrite W. auto.
+      split; [|split; [intros _; split; [discriminate|exact W]|reflexivity]].
+      unfold batch_ok; simpl. rewrite W. repeat split; auto.
     + unfold op_wf in W. simpl in W. destruct prev.
-      * injection H as _ <- _. split; [|intros _; split; [discriminate|exact W]].
-        unfold batch_ok; simpl. rewrite W. auto.
+      * injection H as _ <- _. split; [|split; [intros _; split; [discriminate|exact W]|reflexivity]].
+        unfold batch_ok; simpl. rewrite W. repeat split; auto.
       * injection H as _ <- _. destruct (s_dealt s + 1 <? N.pos p) eqn:E; [exact I|].
-        apply N.ltb_ge in E. split; [|discriminate]. unfold batch_ok; simpl. rewrite W. auto.
-    + destruct e; [destruct (user_get _)|..]; injection H as _ <- _; exact I.
+        apply N.ltb_ge in E. split; [|split; [discriminate|reflexivity]]. unfold batch_ok; simpl. rewrite W. repeat split; auto.
+    + destruct e; [destruct (user_get _)|..]; injection H as _ <- _; try exact I; reflexivity.
     + injection H as _ <- _. exact I.
   - destruct op as [k v|k v prev|k ex|r]; try (injection H as _ <- _; exact P).
     destruct gerr; [injection H as _ <- _; exact I|].
@@ -89,19 +90,19 @@ Proof.
     destruct ((0 <? ex) && (s_dealt s + 1 <? ex)); [injection H as _ <- _; exact I|].
     destruct ((0 <? ex) && negb (ex =? mr)); [injection H as _ <- _; exact I|].
     destruct (s_dealt s + 1 <=? mr) eqn:E; injection H as _ <- _; [exact I|].
-    apply N.leb_gt in E. split; [|discriminate]. unfold batch_ok; simpl. repeat split; auto. lia.
-  - destruct P as [B F].
+    apply N.leb_gt in E. split; [|split; [discriminate|reflexivity]]. unfold batch_ok; simpl. repeat split; auto. lia.
+  - destruct P as [B [F Hw]].
     destruct (commit (s_store s) b e) as [sto eo] eqn:C.
     destruct st; destruct eo as [er|]; try (injection H as _ <- _; exact I).
     destruct (is_cas er); [|injection H as _ <- _; exact I].
     destruct (F eq_refl) as [Hv Ht].
-    destruct er as [[|] [old|]| | | |oc]; injection H as _ <- _; try exact I; try (split; assumption).
+    destruct er as [[|] [old|]| | | |oc]; injection H as _ <- _; try exact I; try (split; [assumption|split; assumption]).
     destruct B as [Hk _]. apply create_decide_ok; assumption.
-  - destruct P as [Hv Ht].
+  - destruct P as [Hv [Ht Hw]].
     destruct e; [destruct (k_idx _) as [old|]|..]; injection H as _ <- _; try exact I.
     + apply create_decide_ok; assumption.
-    + split; [|discriminate]. unfold batch_ok; simpl. rewrite Ht. repeat split; auto.
-      destruct (op_verb op); auto. contradiction.
+    + split; [|split; [discriminate|exact Hw]]. unfold batch_ok; simpl. rewrite Ht. repeat split; auto;
+      destruct (op_verb op); auto; contradiction.
   - injection H as _ <- _. exact I.
   - destruct eo as [er|]; [|injection H as _ <- _; exact I].
     destruct op as [k v|k v prev|k ex|r].
@@ -147,10 +148,13 @@ Proof.
   - injection H as <- _ _. reflexivity.
 Qed.
 
+Lemma triple_inv {A B C} (a a' : A) (b b' : B) (c c' : C) : (a, b, c) = (a', b', c') -> a = a' /\ b = b' /\ c = c'.
+Proof. intros H; injection H; auto. Qed.
+
 (* a commit: either no effect, or the batch is applied and the request goes straight to its notification *)
 Lemma thread_step_commit s op st c b e s' p' u :
   thread_step s op (PCommit st c b) e = (s', p', u) -> env_ocas e = false ->
-  (s_store s' = s_store s /\ (forall eo, p' = PNotify c eo -> eo <> None)) \/
+  (s_store s' = s_store s /\ (forall c' eo, p' = PNotify c' eo -> eo <> None)) \/
   (s_store s' = apply_batch (s_store s) b /\ cond_holds (b_cond b) (k_idx (s_store s (b_key b))) = true /\
    exists eo, p' = PNotify c eo /\ (eo = None \/ eo = Some (EUncertain false))).
 Proof.
@@ -160,13 +164,13 @@ Proof.
     { destruct st; destruct eo as [er|]; try (injection H as <- _ _; reflexivity).
       destruct (is_cas er); [|injection H as <- _ _; reflexivity].
       destruct er as [[|] [old|]| | | |oc]; injection H as <- _ _; reflexivity. }
-    split; [assumption|]. intros eo' E Hn. subst eo' p'.
+    split; [assumption|]. intros c' eo' E Hn. subst eo' p'.
     destruct st; destruct eo as [er|]; try contradiction.
     + destruct (is_cas er).
-      * destruct er as [[|] [old|]| | | |oc]; injection H as _ H _; try discriminate.
+      * destruct er as [[|] [old|]| | | |oc]; apply triple_inv in H as [_ [H _]]; try discriminate.
         unfold create_decide in H. destruct (snd old && (fst old <? c_rev c)); discriminate.
-      * injection H as _ H _. discriminate.
-    + injection H as _ H _. discriminate.
+      * apply triple_inv in H as [_ [H _]]. discriminate.
+    + apply triple_inv in H as [_ [H _]]. discriminate.
   - right. destruct Heo as [->|[oc [-> ->]]].
     + destruct st; injection H as <- <- _; split; try reflexivity; split; try assumption; exists None; auto.
     + destruct oc; [discriminate|]. destruct st; simpl in H; injection H as <- <- _; split; try reflexivity; split; try assumption;
@@ -216,6 +220,7 @@ Qed.
 
 Lemma inv2_init r0 : Inv2 (init_state r0).
 Proof. constructor; unfold vers; simpl; try contradiction; try discriminate; auto.
+  - intros k. reflexivity.
   - intros ? ? [H|[? H]]; discriminate.
 Qed.
 
@@ -225,4 +230,173 @@ Proof.
   destruct I as [A B C D E F G']. constructor; unfold vers in *; cbn [s_store s_dealt s_threads s_retry set_threads]; try assumption.
   - intros t0 th0 r G0 P0. gs G0; [injection G0 as <-; discriminate|]. apply (B t0 th0 r G0 P0).
   - intros t0 th0 G0. gs G0; [injection G0 as <-; split; [exact W|exact I]|]. apply (E t0 th0 G0).
+Qed.
+
+Lemma inv2_tick s d : Inv2 s -> Inv2 (step s (LTick d)).
+Proof. apply inv2_frame; reflexivity. Qed.
+
+Lemma inv2_seq s : Inv2 s -> Inv2 (step s LSeq).
+Proof.
+  apply inv2_frame; unfold step, step_gen, seq_step; destruct (s_seq s); try reflexivity;
+    destruct (s_slots s (s_committed s + 1)) as [ev|]; try reflexivity;
+    destruct (e_valid ev); try reflexivity; destruct (e_unc ev); reflexivity.
+Qed.
+
+Lemma inv2_thread_step s t e : Inv1 s -> env_ocas e = false -> Inv2 s -> Inv2 (step s (LThread t e)).
+Proof.
+  intros I1 W I. unfold step, step_gen. destruct (get_thread t (s_threads s)) as [th|] eqn:G; [|exact I].
+  destruct (thread_step s (t_op th) (t_pc th) e) as [[s' p'] u] eqn:TS.
+  destruct (thread_step_frame _ _ _ _ _ _ _ TS) as [Hc [Hq [Hr [Hqu [_ [Ht _]]]]]].
+  pose proof (thread_step_effect _ _ _ _ _ _ _ TS) as Eff.
+  destruct I as [Vle Vpre Vdesc Vidx Vpc Vrval Vrlt].
+  destruct (Vpc t th G) as [Wop Pok].
+  pose proof (thread_step_pc_ok _ _ _ _ _ _ _ TS Wop Pok) as Pok'.
+  assert (Hdle : s_dealt s <= s_dealt s').
+  { destruct Eff as [Hd _ _ _ | Hd _ _ _ _ | c eo ev _ _ _ Hd _ _]; lia. }
+  (* the pre-commit revision of the stepping request *)
+  assert (Hpre : forall r, pc_pre p' = Some r -> pc_pre (t_pc th) = Some r \/ (r = s_dealt s + 1 /\ s_store s' = s_store s)).
+  { intros r P. destruct Eff as [Hd Hs Hp Hn | Hd Hs Hp Hp' Hst | c eo ev Ep Ep' Hev Hd Hs Hst].
+    - left. apply pc_pre_rev in P. rewrite Hp in P. destruct (pc_rev_pre _ _ P) as [H|[c [eo H]]]; [exact H|]. exfalso. apply (Hn c eo H).
+    - right. apply pc_pre_rev in P. rewrite Hp' in P. injection P as <-. auto.
+    - subst p'. discriminate. }
+  destruct (t_pc th) as [| | st c b | | | | | |] eqn:PC.
+  3: { (* commit *)
+    destruct Pok as [[Bk [Br [Bf [Bc Bv]]]] _].
+    destruct (thread_step_commit _ _ _ _ _ _ _ _ _ TS W) as [[Hst Hno]|[Hst [Hcond [eo [Ep' Heo]]]]].
+    - (* no effect *)
+      assert (Hd : s_dealt s' = s_dealt s).
+      { destruct Eff as [Hd _ _ _ | _ _ Hp _ _ | c0 eo ev Ep _ _ _ _ _]; [exact Hd|discriminate|discriminate]. }
+      constructor; unfold vers in *; cbn [s_store s_dealt s_threads s_retry set_threads]; rewrite ?Hst, ?Hd, ?Hr, ?Ht; try assumption.
+      + intros t0 th0 r G0 P0. gs G0.
+        * injection G0 as <-. cbn [t_pc] in P0. destruct (Hpre r P0) as [H|[-> _]].
+          -- apply (Vpre t th r G). rewrite PC. exact H.
+          -- intros k v H. apply Vle in H. lia.
+        * apply (Vpre t0 th0 r G0 P0).
+      + intros t0 th0 G0. gs G0; [injection G0 as <-; split; assumption|]. apply (Vpc t0 th0 G0).
+    - (* applied *)
+      assert (Hd : s_dealt s' = s_dealt s).
+      { destruct Eff as [Hd _ _ _ | _ _ Hp _ _ | c0 eo0 ev Ep _ _ _ _ _]; [exact Hd|discriminate|discriminate]. }
+      assert (Pth : pc_rev (t_pc th) = Some (c_rev c)) by (rewrite PC; reflexivity).
+      destruct (i_thr _ I1 t th _ G Pth) as [Hb [_ [Hnr _]]].
+      assert (Hlt : match b_cond b with CIs old => fst old < b_rev b | CAbsent => True end).
+      { destruct (b_cond b) as [|old] eqn:EC; [exact I|]. simpl in Hcond.
+        destruct (k_idx (s_store s (b_key b))) as [i|] eqn:EI; [|discriminate]. apply idxval_eqb_eq in Hcond. subst i.
+        pose proof (Vidx (b_key b)) as X. unfold idx_ok in X. rewrite EI in X.
+        destruct (k_vers (s_store s (b_key b))) as [|[r1 v1] rest] eqn:EV; [discriminate|]. injection X as ->. simpl in Bc. simpl.
+        assert (r1 <> c_rev c).
+        { intros ->. apply (Vpre t th (c_rev c) G) with (k := b_key b) (v := v1); [rewrite PC; reflexivity|]. unfold vers. rewrite EV. left. reflexivity. }
+        rewrite Br. lia. }
+      destruct (apply_batch_shape (s_store s) b Vdesc Vidx Hcond Bf Hlt) as [D' X'].
+      constructor; unfold vers in *; cbn [s_store s_dealt s_threads s_retry set_threads]; rewrite ?Hst, ?Hd, ?Hr, ?Ht; try assumption.
+      + intros k r v H. apply in_apply_batch in H as [[_ H]|H]; [injection H as -> _; rewrite Br; lia|apply (Vle k r v H)].
+      + intros t0 th0 r G0 P0. gs G0.
+        * injection G0 as <-. cbn [t_pc] in P0. try subst p'. discriminate.
+        * intros k v H. apply in_apply_batch in H as [[_ H]|H]; [|apply (Vpre t0 th0 r G0 P0 k v H)].
+          injection H as -> _. apply E. apply (i_uniq _ I1 t0 t th0 th (b_rev b) G0 G); [apply pc_pre_rev; exact P0|rewrite Br; exact Pth].
+      + intros t0 th0 G0. gs G0; [injection G0 as <-; split; assumption|]. apply (Vpc t0 th0 G0).
+      + intros node val H. apply in_apply_batch. right. apply (Vrval node val H). }
+  all: (* every other action leaves the store alone *)
+    assert (Hst : s_store s' = s_store s) by (apply (thread_step_store _ _ _ _ _ _ _ TS); intros; discriminate);
+    constructor; unfold vers in *; cbn [s_store s_dealt s_threads s_retry set_threads]; rewrite ?Hst, ?Hr, ?Ht; try assumption;
+    [ intros k0 r1 v0 H0; apply Vle in H0; lia
+    | intros t0 th0 r1 G0 P0; gs G0;
+      [ injection G0 as <-; cbn [t_pc] in P0; destruct (Hpre r1 P0) as [H0|[-> _]];
+        [ apply (Vpre t th r1 G); rewrite PC; exact H0 | intros k0 v0 H0; apply Vle in H0; lia ]
+      | apply (Vpre t0 th0 r1 G0 P0) ]
+    | intros t0 th0 G0; gs G0; [injection G0 as <-; split; assumption|apply (Vpc t0 th0 G0)] ].
+Qed.
+
+Lemma inv2_retry s e : Inv1 s -> Inv2 s -> Inv2 (step s (LRetry e)).
+Proof.
+  intros I1 I. unfold step, step_gen, retry_step.
+  destruct I as [Vle Vpre Vdesc Vidx Vpc Vrval Vrlt].
+  destruct (s_retry s) as [|node|node val|node val rev|node rev eo|node st] eqn:R.
+  - destruct (s_queue s) as [|[node t] rest]; [|destruct (s_now s - t <? retry_interval)];
+      (constructor; unfold vers in *; cbn [s_store s_dealt s_threads s_retry set_retry set_rlast]; rewrite ?R; try assumption);
+      try (intros ? ? [H|[? H]]; discriminate); try discriminate.
+  - destruct e; try (constructor; unfold vers in *; cbn [s_store s_dealt s_threads s_retry set_retry set_rlast]; try assumption;
+                     [intros ? ? [H|[? H]]; discriminate|discriminate]).
+    destruct (latest (k_vers (s_store s (e_key node)))) as [[modrev val]|] eqn:L.
+    + destruct (is_empty val || negb (modrev =? e_rev node)) eqn:C.
+      * constructor; unfold vers in *; cbn [s_store s_dealt s_threads s_retry set_retry]; try assumption;
+          [intros ? ? [H|[? H]]; discriminate|discriminate].
+      * constructor; unfold vers in *; cbn [s_store s_dealt s_threads s_retry set_retry]; try assumption; [|discriminate].
+        intros n v [H|[? H]]; [|discriminate]. injection H as <- <-.
+        apply orb_false_iff in C as [_ C]. apply negb_false_iff in C. apply N.eqb_eq in C. subst modrev.
+        apply latest_in. exact L.
+    + constructor; unfold vers in *; cbn [s_store s_dealt s_threads s_retry set_retry]; try assumption;
+        [intros ? ? [H|[? H]]; discriminate|discriminate].
+  - (* Deal *)
+    pose proof (Vrval node val (or_introl eq_refl)) as Hin.
+    constructor; unfold vers in *; cbn [s_store s_dealt s_threads s_retry set_retry set_dealt]; try assumption.
+    + intros k r v H. apply Vle in H. lia.
+    + intros n v [H|[rev H]]; [discriminate|]. injection H as <- <- _. exact Hin.
+    + intros n v rev H. injection H as <- <- <-. apply Vle in Hin. lia.
+  - (* the repair commit *)
+    destruct (commit (s_store s) (mk_batch (e_key node) (CIs (e_rev node, is_tomb val)) rev (is_tomb val) val) e) as [sto eo] eqn:C.
+    destruct (commit_cases _ _ _ _ _ C) as [[-> Hne]|[-> [Hc Heo]]].
+    + constructor; unfold vers in *; cbn [s_store s_dealt s_threads s_retry set_retry set_store]; try assumption;
+        [intros ? ? [H|[? H]]; discriminate|discriminate].
+    + destruct (i_retry _ I1 rev) as [Hb _]; [rewrite R; reflexivity|].
+      pose proof (Vrlt node val rev eq_refl) as Hlt.
+      destruct (apply_batch_shape (s_store s) _ Vdesc Vidx Hc eq_refl Hlt) as [D' X'].
+      constructor; unfold vers in *; cbn [s_store s_dealt s_threads s_retry set_retry set_store]; try assumption.
+      * intros k r v H. apply in_apply_batch in H as [[_ H]|H]; [injection H as -> _; cbn [mk_batch b_rev]; lia|apply (Vle k r v H)].
+      * intros t0 th0 r G0 P0 k v H. apply in_apply_batch in H as [[_ H]|H]; [|apply (Vpre t0 th0 r G0 P0 k v H)].
+        injection H as -> _. cbn [mk_batch b_rev] in P0. apply pc_pre_rev in P0.
+        destruct (i_thr _ I1 t0 th0 rev G0 P0) as [_ [_ [Hn _]]]. apply Hn. rewrite R. reflexivity.
+      * intros ? ? [H|[? H]]; discriminate.
+      * discriminate.
+  - constructor; unfold vers in *; cbn [s_store s_dealt s_threads s_retry set_retry set_slots]; try assumption;
+      [intros ? ? [H|[? H]]; discriminate|discriminate].
+  - constructor; unfold vers in *; cbn [s_store s_dealt s_threads s_retry set_retry set_queue set_rlast]; try assumption;
+      [intros ? ? [H|[? H]]; discriminate|discriminate].
+Qed.
+
+Lemma inv2_step s l : Inv1 s -> wf_label l -> Inv2 s -> Inv2 (step s l).
+Proof.
+  intros I1 W I. destruct l; simpl in W.
+  - apply inv2_invoke; assumption.
+  - apply inv2_thread_step; assumption.
+  - apply inv2_seq; assumption.
+  - apply inv2_retry; assumption.
+  - apply inv2_tick; assumption.
+Qed.
+
+
+(* outside a commit, a request reaches its notification only on a definite error *)
+Ltac tn H := apply triple_inv in H as [_ [H _]]; try discriminate; try (inversion H; subst; eauto; fail).
+
+Lemma thread_step_notify_other s op p e s' c' eo' u :
+  pc_ok op p -> (forall st c b, p <> PCommit st c b) -> thread_step s op p e = (s', PNotify c' eo', u) ->
+  exists er, eo' = Some er /\ is_unc er = false.
+Proof.
+  intros PK N H. destruct p; simpl in H; try (exfalso; eapply N; reflexivity).
+  - destruct op as [k v|k v prev|k ex|r].
+    + tn H.
+    + destruct prev; [tn H|]. destruct (s_dealt s + 1 <? N.pos p); tn H.
+    + destruct e; [destruct (user_get _)|..]; tn H.
+    + tn H.
+  - destruct op as [k v|k v prev|k ex|r]; try (tn H).
+    destruct gerr as [ge|].
+    + apply triple_inv in H as [_ [H _]]. inversion H; subst. exists ge. split; [reflexivity|exact PK].
+    + destruct old as [[ov mr]|]; [|tn H].
+      destruct ((0 <? ex) && (s_dealt s + 1 <? ex)); [tn H|].
+      destruct ((0 <? ex) && negb (ex =? mr)); [tn H|].
+      destruct (s_dealt s + 1 <=? mr); tn H.
+  - destruct e; [destruct (k_idx _) as [old|]|..]; try (tn H).
+    unfold create_decide in H. destruct (snd old && (fst old <? c_rev c)); [discriminate|].
+    inversion H; subst; eauto.
+  - tn H.
+  - destruct eo as [er|]; [|tn H].
+    destruct op as [k v|k v prev|k ex|r].
+    + destruct (is_cas er); tn H.
+    + destruct (is_cas er); tn H.
+    + destruct (is_notfound er); [|destruct (is_cas er)]; tn H.
+    + tn H.
+  - destruct op as [k v|k v prev|k ex|r]; try (tn H).
+    + destruct e; [destruct (user_get _) as [[v0 r0]|]|..]; tn H.
+    + destruct e; [destruct (user_get _) as [[v0 r0]|]|..]; tn H.
+  - destruct op as [k v|k v prev|k ex|r]; tn H.
+  - tn H.
 Qed.
